@@ -601,7 +601,8 @@ var natives = map[string]func([]value) value{
 		return out
 	},
 	// off(m, i): offset of the encoding of m[i] in the percent-encoding of m
-	// (axioms off_zero / off_step: 3 bytes for an escaped byte, 1 otherwise)
+	// (axioms off_zero / off_step: 3 bytes for an escaped byte, 1 otherwise; a byte
+	// is escaped per escAt: outside %x20-%x7E, '%', or a blank at either end of m)
 	"off": func(a []value) value {
 		m := asSeq(a[0])
 		i := asInt(a[1])
@@ -610,7 +611,7 @@ var natives = map[string]func([]value) value{
 		}
 		o := int64(0)
 		for j := int64(0); j < i.Int64(); j++ {
-			if c := m[j]; c < 32 || c > 126 || c == 37 {
+			if c := m[j]; c < 32 || c > 126 || c == 37 || (c == 32 && (j == 0 || j == int64(len(m))-1)) {
 				o += 3
 			} else {
 				o++
